@@ -53,7 +53,7 @@ Qed.
 
 Fixpoint eval_nat (e : expr) : forall rho k k', krel k k' -> h (eval O R err rho e k) = eval O R' err' rho e k'.
 Proof.
-  destruct e as [v|x|e a|o a b|a rest|a b|a b|a|c a b|elt x it cond|elt x it cond|e key|e n|e|es|neg e c|f args|a b];
+  destruct e as [v|x|e a|o a b|a rest|a b|a b|a|c a b|elt x it cond|elt x it cond|e key|e n|e|es|neg e c|f args|a b|elt x it cond];
     intros rho k k' Hk; simpl.
   - apply Hk.
   - apply Hk.
@@ -88,6 +88,12 @@ Proof.
     + destruct (ocall O f (rev acc)); auto; apply Hk.
     + apply eval_nat. intros v. destruct v; auto; apply IH.
   - apply eval_nat. intros va. apply eval_nat. intros vb. destruct va, vb; auto; apply Hk.
+  - apply eval_nat. intros vit. destruct vit; auto.
+    apply gen_collect_nat; [|intros vs; apply Hk].
+    intros v kk kk' Hkk. destruct cond as [c|].
+    + apply eval_nat. intros vc. apply bool_k_nat. intros [|]; [|apply Hkk].
+      apply eval_nat. intros ve. apply Hkk.
+    + apply eval_nat. intros ve. apply Hkk.
 Qed.
 
 Variables (kret : env -> val -> R) (kret' : env -> val -> R').
@@ -96,27 +102,41 @@ Hypothesis Hret : forall rho v, h (kret rho v) = kret' rho v.
 Fixpoint exec_nat (s : stmt) : forall rho k k', krel k k' ->
   h (exec O R kret err s rho k) = exec O R' kret' err' s rho k'.
 Proof.
-  assert (Hblock : forall l rho k k', krel k k' ->
-            h ((fix block (l : list stmt) (rho : env) (k : env -> R) : R :=
-                  match l with [] => k rho | s :: l' => exec O R kret err s rho (fun rho' => block l' rho' k) end) l rho k) =
-            (fix block (l : list stmt) (rho : env) (k : env -> R') : R' :=
-                  match l with [] => k rho | s :: l' => exec O R' kret' err' s rho (fun rho' => block l' rho' k) end) l rho k'
-            -> True) by auto.
-  clear Hblock.
-  destruct s as [ts e|t o e|c th el|x e|e|x it body|e|ts e|]; intros rho k k' Hk; simpl.
+  destruct s as [ts e|t o e|c th el|x e|e|x it body|e|ts e|c body| | |x e|]; intros rho k k' Hk; simpl.
   - apply eval_nat. intros v. apply Hk.
   - apply eval_nat. intros v. apply arith_k_nat. intros r. apply Hk.
   - apply eval_nat. intros vc. apply bool_k_nat. intros [|].
-    + generalize rho. induction th as [|s1 th IH]; intros rho0; [apply Hk|]. apply exec_nat. intros rho'. apply IH.
-    + generalize rho. induction el as [|s1 el IH]; intros rho0; [apply Hk|]. apply exec_nat. intros rho'. apply IH.
+    + generalize rho. induction th as [|s1 th IH]; intros rho0; [apply Hk|]. apply exec_nat. intros rho'.
+      destruct (flowing rho'); [apply Hk|apply IH].
+    + generalize rho. induction el as [|s1 el IH]; intros rho0; [apply Hk|]. apply exec_nat. intros rho'.
+      destruct (flowing rho'); [apply Hk|apply IH].
   - apply eval_nat. intros v. destruct (lookup x rho); auto. destruct v; auto.
   - apply eval_nat. intros v. apply Hret.
   - apply eval_nat. intros vit. destruct vit; auto.
     apply gen_iter_nat; [|exact Hk]. intros v rho0 kk kk' Hkk.
     generalize (update x v rho0). induction body as [|s1 body IH]; intros rho1; [apply Hkk|].
-    apply exec_nat. intros rho'. apply IH.
+    apply exec_nat. intros rho'. destruct (flowing rho'); [apply Hkk|apply IH].
   - apply eval_nat. intros v. apply bool_k_nat. intros [|]; [apply Hk|apply Herr].
   - apply eval_nat. intros v. destruct v; auto. destruct (Nat.eqb _ _); auto; apply Hk.
+  - (* while *)
+    assert (Hb : forall (kk : env -> R) (kk' : env -> R'), krel kk kk' -> forall rho1,
+      h ((fix block (l : list stmt) (rho : env) (k : env -> R) : R :=
+            match l with [] => k rho
+            | s :: l' => exec O R kret err s rho (fun rho' => if flowing rho' then k rho' else block l' rho' k) end)
+           body rho1 kk) =
+      (fix block (l : list stmt) (rho : env) (k : env -> R') : R' :=
+            match l with [] => k rho
+            | s :: l' => exec O R' kret' err' s rho (fun rho' => if flowing rho' then k rho' else block l' rho' k) end)
+           body rho1 kk').
+    { intros kk kk' Hkk. induction body as [|s1 body IH]; intros rho1; [apply Hkk|].
+      apply exec_nat. intros rho'. destruct (flowing rho'); [apply Hkk|apply IH]. }
+    generalize rho. generalize (wfuel O) as n. induction n as [|n IHn]; intros rho0; [apply Herr|].
+    simpl. apply eval_nat. intros vc. apply bool_k_nat. intros [|]; [|apply Hk].
+    apply Hb. intros rho'. destruct (lookup "%flow" rho'); try apply IHn.
+    destruct (String.eqb s "break"); [apply Hk|apply IHn].
+  - apply Hk.
+  - apply Hk.
+  - apply eval_nat. intros v. destruct (lookup x rho); auto; apply Hk.
   - apply Hk.
 Qed.
 
@@ -124,7 +144,7 @@ Lemma exec_block_nat : forall l rho k k', krel k k' ->
   h (exec_block O R kret err l rho k) = exec_block O R' kret' err' l rho k'.
 Proof.
   induction l as [|s l IH]; intros rho k k' Hk; simpl; [apply Hk|].
-  apply exec_nat. intros rho'. now apply IH.
+  apply exec_nat. intros rho'. destruct (flowing rho'); [apply Hk|now apply IH].
 Qed.
 End Nat.
 
